@@ -503,7 +503,8 @@ def polygon_case(draw):
                     default_dim=bool(dim == 2 and draw(st.booleans())))
     return dict(n=n, dim=dim, angle=None,
                 radius=draw(st.one_of(fl(0.05, 6.0), st.sampled_from([1.0, 0.5, 2.0]))),
-                default_dim=bool(dim == 2 and draw(st.booleans())))
+                default_dim=bool(dim == 2 and draw(st.booleans())),
+                positional=draw(st.booleans()))
 
 
 def body_polygon(case, ctx):
@@ -572,7 +573,8 @@ def formula_case(draw):
     n = draw(st.integers(3, 60))
     amax = (n - 2) * math.pi / n
     return dict(n=n, angle=draw(fl(0.02 * amax, 0.98 * amax)), radius=draw(fl(0.05, 6.0)),
-                g=draw(st.integers(2, 30)))
+                g=draw(st.integers(2, 30)),
+                t=draw(st.one_of(fl(-6.0, 6.0), st.sampled_from(T_SPECIAL))))
 
 
 def body_formula(case, ctx):
@@ -594,6 +596,9 @@ def body_formula(case, ctx):
     ctx.small("radius(interior_angle(r)) = r",
               (back_r - r) / (1e-9 * math.cosh(r) ** 2 / max(math.sinh(r), 1e-2)), 1.0,
               back=back_r, r=r)
+    t = float(case["t"])
+    ctx.small("hyp_to_affine_dist(t) = tanh t", (float(hyperbolic.hyp_to_affine_dist(t)) -
+                                                  math.tanh(t)) / 1e-12, 1.0, t=t)
     g = case["g"]
     rg = float(hyperbolic.genus_g_surface_radius(g))
     want = math.acosh(1.0 / math.tan(math.pi / (4 * g)) ** 2)
